@@ -18,6 +18,7 @@ package aaa
 //                          backend) and/or UpdateAccounting calls reach the backend but get no response (I: recorded
 //                          with flag h, the caller stays blocked) / nothing is held;  U  lets the delayed Starts through
 //                          and delivers the outstanding responses (K<i> acknowledged, F<i> failed), oldest first
+//   H,W / H,IW             checkpoint writes (opdb Put) are held back before they reach the store;  UW lets them through
 //   B                      restart: new component over the same opdb, loadAcctSessions
 //   P,<0|1>                pruneOrphanedAcctEntries(now [+10 min])
 //   C/<snap>/<m>/<m>...    the notifications m (A,i,ifx  R,i,ifx  X,i  T,bucket,mask) are delivered CONCURRENTLY, one
@@ -154,10 +155,29 @@ func (p *vf09Provider) StopAccounting(_ context.Context, s *auth.Session) error 
 type vf09Store struct {
 	mu sync.Mutex
 	m  map[string]map[string][]byte
+	// H,W: checkpoint writes are held back before they reach the store; UW lets them through
+	holdPut  bool
+	heldPuts []chan struct{}
+	heldKeys []string
+}
+
+func (s *vf09Store) nHeld() int {
+	s.mu.Lock()
+	defer s.mu.Unlock()
+	return len(s.heldPuts)
 }
 
 func (s *vf09Store) Put(_ context.Context, ns, key string, value []byte) error {
 	s.mu.Lock()
+	if s.holdPut {
+		// the checkpoint write is on its way (marshalled, goroutine started) but has not reached the store yet
+		ch := make(chan struct{})
+		s.heldPuts = append(s.heldPuts, ch)
+		s.heldKeys = append(s.heldKeys, key)
+		s.mu.Unlock()
+		<-ch
+		s.mu.Lock()
+	}
 	defer s.mu.Unlock()
 	if s.m[ns] == nil {
 		s.m[ns] = map[string][]byte{}
@@ -522,6 +542,7 @@ type vf09World struct {
 	freeBucket  int
 	// sessions released while one of their Interims was unanswered / for which such a response was then delivered
 	relWhileHeld map[string]bool
+	relWhilePut  map[string]bool // ... released while a checkpoint write of theirs was held
 	lateSeen     map[string]bool
 }
 
@@ -657,6 +678,12 @@ func vf09RunCase(line string, g0 int) (res string) {
 			}
 			w.ap.held, w.ap.holdStart = nil, false
 			w.ap.mu.Unlock()
+			w.db.mu.Lock()
+			for _, ch := range w.db.heldPuts {
+				close(ch)
+			}
+			w.db.heldPuts, w.db.heldKeys, w.db.holdPut = nil, nil, false
+			w.db.mu.Unlock()
 			vf09Quiesce(g0)
 			for _, b := range w.bases {
 				b.StopContext()
@@ -794,7 +821,7 @@ func vf09RunCase(line string, g0 int) (res string) {
 		} else if e := w.exec(members[0]); e != "" {
 			return e
 		}
-		if !vf09QuiesceF(func() int { return g0 + w.ap.nHeld() }) {
+		if !vf09QuiesceF(func() int { return g0 + w.ap.nHeld() + w.db.nHeld() }) {
 			return "hang after " + op
 		}
 		// Everything the component spawned has finished, but the race detector only knows that through a
@@ -982,6 +1009,11 @@ func vf09RunCase(line string, g0 int) (res string) {
 				d = "held"
 			}
 		}
+		w.db.mu.Lock()
+		if w.db.holdPut {
+			d = "held"
+		}
+		w.db.mu.Unlock()
 		w.ap.mu.Unlock()
 	}
 	return strings.Join(groups, " ") + " ; " + d + " ; " + strings.Join(vs, " ")
@@ -1021,7 +1053,9 @@ func (w *vf09World) valid(a []string) bool {
 	case "P":
 		return len(a) == 2
 	case "H":
-		return len(a) == 2 && (a[1] == "S" || a[1] == "I" || a[1] == "SI" || a[1] == "-")
+		return len(a) == 2 && (a[1] == "S" || a[1] == "I" || a[1] == "SI" || a[1] == "-" || a[1] == "W" || a[1] == "IW")
+	case "UW":
+		return len(a) == 1
 	}
 	return false
 }
@@ -1056,6 +1090,16 @@ func (w *vf09World) exec(a []string) string {
 		if a[2] != "" && w.setSnap(a[2]) != nil {
 			return "badline"
 		}
+		w.db.mu.Lock()
+		for _, k := range w.db.heldKeys {
+			if k == w.sess[i].id {
+				if w.relWhilePut == nil {
+					w.relWhilePut = map[string]bool{}
+				}
+				w.relWhilePut[k] = true
+			}
+		}
+		w.db.mu.Unlock()
 		w.ap.mu.Lock()
 		for _, h := range w.ap.held {
 			if h.kind == 'I' && h.sid == w.sess[i].id {
@@ -1106,6 +1150,28 @@ func (w *vf09World) exec(a []string) string {
 		w.ap.holdStart = strings.Contains(a[1], "S")
 		w.ap.holdInterim = strings.Contains(a[1], "I")
 		w.ap.mu.Unlock()
+		w.db.mu.Lock()
+		w.db.holdPut = strings.Contains(a[1], "W")
+		w.db.mu.Unlock()
+	case "UW":
+		// the held checkpoint writes reach the store, oldest first
+		w.db.mu.Lock()
+		chs, keys := w.db.heldPuts, w.db.heldKeys
+		w.db.heldPuts, w.db.heldKeys, w.db.holdPut = nil, nil, false
+		w.db.mu.Unlock()
+		for i, ch := range chs {
+			if w.relWhilePut[keys[i]] {
+				if w.lateSeen == nil {
+					w.lateSeen = map[string]bool{}
+				}
+				w.lateSeen[keys[i]] = true
+			}
+			close(ch)
+			if !vf09Quiesce(w.g0 + w.ap.nHeld() + len(chs) - 1 - i) {
+				return "hang releasing a held checkpoint write"
+			}
+		}
+		w.relWhilePut = nil
 	case "U":
 		// let the delayed calls through, session by session, oldest first, one at a time
 		w.ap.mu.Lock()
@@ -1137,7 +1203,7 @@ func (w *vf09World) exec(a []string) string {
 				w.ap.mu.Unlock()
 			}
 			close(h.release)
-			if !vf09Quiesce(w.g0 + len(hs) - 1 - i) {
+			if !vf09QuiesceF(func() int { return w.g0 + len(hs) - 1 - i + w.db.nHeld() }) {
 				return "hang releasing a delayed call"
 			}
 		}
